@@ -405,29 +405,35 @@ def _real_device(kind, tok):
 
 
 def facade_mode(pumps, blowers):
-    """run the REAL GeckoAsyncFacade._on_config_device_change over real device objects and observe the mode it asks
-    set_config_mode for (the call is passed through to the real set_config_mode): '1' active, '0' idle, else what happened"""
+    """run the REAL GeckoAsyncFacade._on_config_device_change (on a facade built by the real constructor, whose pump and blower
+    lists are replaced by real device objects with stub state sensors) once with the live table ACTIVE beforehand and once
+    with it IDLE, and observe the table afterwards: '1' active, '0' idle, else what happened"""
     async def body(loop):
         import geckolib.config as cfg
-        import geckolib.automation.async_facade as af
+        from geckolib import GeckoAsyncFacade
+        from geckolib.utils.snapshot import GeckoSnapshot
+        from props import c11
+        from common import REPO
         await cfg.config_sleep(0)
-        fac = object.__new__(af.GeckoAsyncFacade)
-        fac._pumps = [_real_device("p", t) for t in pumps]
-        fac._blowers = [_real_device("b", t) for t in blowers]
-        calls, orig = [], af.set_config_mode
-
-        def spy(active):
-            calls.append(active)
-            return orig(active)
-        af.set_config_mode = spy
-        try:
+        snap = GeckoSnapshot.parse_log_file(str(REPO / "tests" / "snapshots" / "default.snapshot"))[0]
+        plat = snap.packtype.lower()
+        act, idle = cfg._GeckoActiveConfig(), cfg._GeckoIdleConfig()
+        res = []
+        for prior in (True, False):
+            spa = c11.StubSpa(f"{plat}-cfg-{snap.config_version}", f"{plat}-log-{snap.log_version}", bytes(snap.bytes), "a")
+            fac = GeckoAsyncFacade(spa, c11.Taskman())
+            fac._pumps = [_real_device("p", t) for t in pumps]
+            fac._blowers = [_real_device("b", t) for t in blowers]
+            cfg.set_config_mode(prior)
             fac._on_config_device_change()
-        finally:
-            af.set_config_mode = orig
-        if len(calls) != 1 or not isinstance(calls[0], bool):
-            return f"set_config_mode calls: {calls!r}"
-        return "1" if calls[0] else "0"
+            a = all(getattr(cfg.GeckoConfig, m) == getattr(act, m) for m in cfg.CONFIG_MEMBERS)
+            i = all(getattr(cfg.GeckoConfig, m) == getattr(idle, m) for m in cfg.CONFIG_MEMBERS)
+            res.append("1" if a else "0" if i else "mixed")
+        if res[0] != res[1]:
+            return f"depends on the table before: active before -> {res[0]}, idle before -> {res[1]}"
+        return res[0]
     try:
+        qloop.reset_config()
         return qloop.run_q(body)
     except Exception as e:  # noqa
         return f"raised {type(e).__name__}: {e}"
@@ -472,6 +478,136 @@ def check_facade(ctx):
     ctx.sample({"facade": lines[5:8], "answers": impl[5:8]})
 
 
+# ----------------------------------------------------------------------------------------------- histories over REAL facades
+def _real_history(ops, snapshot="default.snapshot"):
+    """Real GeckoAsyncFacade objects, built by their real constructor on one real structure holding a shipped snapshot's
+    block, driven through a history (the process-wide GeckoConfig is shared by all of them, as in a real process):
+      ["new"]           the connection is replaced: old facade.disconnect(), a new facade on the same structure
+      ["set", i, on]    device i (pumps then blowers) starts/stops: its state bits change through
+                        replace_status_block_segment -> accessor -> sensor -> device -> facade notification chain
+      ["ext", b]        somebody else switches the mode (another spa's facade, user code)
+      ["tick"]          what the facade update loop does every period: facade._on_config_device_change()
+    Returns one record per op: [op, devices_on, table ('active'|'idle'|'mixed:<member>'), must_match]."""
+    import importlib
+    from props import c11
+    from common import REPO
+
+    async def body(loop):
+        import geckolib.config as cfg
+        from geckolib import GeckoAsyncFacade
+        from geckolib.utils.snapshot import GeckoSnapshot
+        await cfg.config_sleep(0)
+        snap = GeckoSnapshot.parse_log_file(str(REPO / "tests" / "snapshots" / snapshot))[0]
+        plat = snap.packtype.lower()
+        spa = c11.StubSpa(f"{plat}-cfg-{snap.config_version}", f"{plat}-log-{snap.log_version}", bytes(snap.bytes), "a")
+        act, idle = cfg._GeckoActiveConfig(), cfg._GeckoIdleConfig()
+
+        def table():
+            a = [m for m in cfg.CONFIG_MEMBERS if getattr(cfg.GeckoConfig, m) != getattr(act, m)]
+            i = [m for m in cfg.CONFIG_MEMBERS if getattr(cfg.GeckoConfig, m) != getattr(idle, m)]
+            return "active" if not a else ("idle" if not i else f"mixed:{a[0]}")
+
+        fac = GeckoAsyncFacade(spa, c11.Taskman())
+        out = []
+
+        def devs():
+            return list(fac.all_config_change_devices)
+
+        def on_count():
+            return sum(1 for d in devs() if d.is_on)
+        for op in ops:
+            must = False
+            if op[0] == "new":
+                await fac.disconnect()
+                fac = GeckoAsyncFacade(spa, c11.Taskman())
+            elif op[0] == "set":
+                ds = devs()
+                if ds:
+                    d = ds[op[1] % len(ds)]
+                    acc = d._state_sensor.accessor
+                    before = d.is_on
+                    if acc.type == "Bool":
+                        idx = 1 if op[2] else 0
+                    else:
+                        labels = list(acc.items)
+                        offs = [k for k, l in enumerate(labels) if l == "OFF"]
+                        ons = [k for k, l in enumerate(labels) if l != "OFF"]
+                        idx = (ons[op[1] % len(ons)] if ons else 0) if op[2] else (offs[0] if offs else 0)
+                    blk = spa.struct.status_block
+                    w = int.from_bytes(blk[acc.pos:acc.pos + acc.length], "big")
+                    if acc.bitpos is not None:
+                        w = (w & ~(acc.bitmask << acc.bitpos)) | (idx << acc.bitpos)
+                    else:
+                        w = idx
+                    spa.struct.replace_status_block_segment(acc.pos, w.to_bytes(acc.length, "big"))
+                    must = d.is_on != before            # the device's state changed: the facade has been notified
+            elif op[0] == "ext":
+                cfg.set_config_mode(bool(op[1]))
+            elif op[0] == "tick":
+                fac._on_config_device_change()
+                must = True
+            out.append([list(op), on_count(), table(), must])
+        await fac.disconnect()
+        return out
+    qloop.reset_config()
+    return qloop.run_q(body)
+
+
+def facade_histories(ctx):
+    rng = ctx.rng
+    hs = [
+        [["set", 0, True], ["new"], ["set", 0, False], ["tick"]],                        # reconnect with a pump running, then it stops
+        [["set", 0, True], ["set", 0, False], ["new"], ["tick"], ["set", 1, True], ["set", 1, False]],
+        [["tick"], ["ext", True], ["tick"], ["set", 0, True], ["ext", False], ["tick"]],  # somebody else switches the mode
+        [["set", 0, True], ["new"], ["tick"], ["set", 0, False], ["new"], ["tick"]],
+    ]
+    for _ in range(12 if ctx.quick else 150):
+        h = []
+        for _ in range(rng.randint(3, 14)):
+            r = rng.random()
+            h.append(["set", rng.randrange(4), rng.random() < 0.5] if r < 0.5 else ["tick"] if r < 0.7 else ["new"] if r < 0.85 else ["ext", rng.random() < 0.5])
+        hs.append(h)
+    return hs
+
+
+def check_facade_real(ctx):
+    """direct oracle (no model): after every op that makes the facade evaluate its rule, the live table is the ACTIVE one iff some
+    pump or blower is on, never a mixture"""
+    snaps = ["default.snapshot", "inYT-Pump1Hi-2020-12-13 11_19_35.snapshot", "inXM-Pump 1, 2 and blower running-2020-12-08 19_54_44.snapshot"] if ctx.quick else None
+    import glob
+    import os
+    from common import REPO
+    if snaps is None:
+        snaps = sorted(os.path.basename(p) for p in glob.glob(str(REPO / "tests" / "snapshots" / "*.snapshot")))
+    snaps = [s_ for s_ in snaps if os.path.exists(str(REPO / "tests" / "snapshots" / s_))]
+    n, nontriv = 0, set()
+    for sn in snaps:
+        for h in facade_histories(ctx):
+            try:
+                recs = _real_history(h, sn)
+            except Exception as e:  # noqa
+                if "more than one" in str(e) or isinstance(e, IndexError):
+                    break       # a session log with several snapshots / no snapshot: not a facade input (C19 reports those)
+                ctx.violation(f"facade-history:raised:{type(e).__name__}", {"kind": "facade-history", "snapshot": sn, "ops": h},
+                              "the history runs", f"{type(e).__name__}: {e}")
+                break
+            n += 1
+            ctx.count("evaluations")
+            for k, (op, on, tab, must) in enumerate(recs):
+                if tab.startswith("mixed") or (must and tab != ("active" if on else "idle")):
+                    ctx.violation(f"facade-history:{'mixture' if tab.startswith('mixed') else 'wrong-table'}:after-{op[0]}",
+                                  {"kind": "facade-history", "snapshot": sn, "ops": h[:k + 1]},
+                                  f"{'active' if on else 'idle'} table ({on} pump(s)/blower(s) on)", tab)
+                    break
+                if must:
+                    nontriv.add((op[0], on > 0, tab))
+            else:
+                continue
+            break
+    ctx.cov["real_facade_histories"] = n
+    ctx.cov["real_facade_history_outcomes"] = sorted(map(str, nontriv))
+
+
 # ----------------------------------------------------------------------------------------------- run / replay
 def run(ctx):
     st = translate.run(["ConfigTables"])
@@ -511,6 +647,7 @@ def run(ctx):
     if st["ConfigTables"] == "ok":
         correspondence(ctx, exact)
     check_facade(ctx)
+    check_facade_real(ctx)
     if exact:
         fam, script, res = exact[len(RACES)]
         ctx.sample({"script": script["ops"][:10], "events": [e[:4] for e in res.get("events", [])[:12]]})
@@ -535,6 +672,13 @@ def replay(inp):
         got = facade_mode(inp["pumps"], inp["blowers"])
         want = "1" if any(_is_on(t) for t in inp["pumps"] + inp["blowers"]) else "0"
         return got != want, got
+    if inp.get("kind") == "facade-history":
+        try:
+            recs = _real_history(inp["ops"], inp["snapshot"])
+        except Exception as e:  # noqa
+            return True, f"{type(e).__name__}: {e}"
+        op, on, tab, must = recs[-1]
+        return tab.startswith("mixed") or (must and tab != ("active" if on else "idle")), {"devices_on": on, "table": tab}
     script = inp["script"]
     res = run_script(script)
     v = monitor(script, res)
